@@ -10,36 +10,31 @@ Proof. unfold rename_valid, target_field. destruct s; cbn [is_some]; destruct (k
 Lemma rename_wrong_ref_target i n s : rename_wrong_ref n s = target_field i n s None.
 Proof. destruct s; reflexivity. Qed.
 
-Lemma Forall2_map_pass (R : ast -> ast -> Prop) (f : ast -> ast) (g : ast -> bool) l :
-  Forall (fun x => g x = true -> R x (f x)) l -> forallb g l = true -> Forall2 R l (map f l).
-Proof.
-  induction 1 as [|x l Hx _ IH]; cbn [forallb map]; intro Hg; [constructor|].
-  apply andb_true_iff in Hg as [H1 H2]. constructor; auto.
-Qed.
+Lemma Forall2_map_pass (R : ast -> ast -> Prop) (f : ast -> ast) l :
+  Forall (fun x => R x (f x)) l -> Forall2 R l (map f l).
+Proof. induction 1 as [|x l Hx _ IH]; cbn [map]; constructor; auto. Qed.
 
-Theorem rename_only_target_partial i n e :
-  no_ghost_range e = true -> only_target i n e (rename_node i n e).
+Lemma rename_wrong_range_target i n s : rename_wrong_range n s = target_field i n s None.
+Proof. destruct s; reflexivity. Qed.
+
+(* the statement at full strength (since commit 059fa54 the WrongRangeKind arm is empty) *)
+Theorem rename_only_target i n e : only_target i n e (rename_node i n e).
 Proof.
-  induction e using ast_rect'; cbn [rename_node no_ghost_range]; intro Hg;
+  induction e using ast_rect'; cbn [rename_node];
     try (apply OT_leaf; reflexivity);
-    try (apply andb_true_iff in Hg as [Hg1 Hg2]; constructor; auto; fail);
     try (constructor; auto; fail).
   - (* ERef *) destruct i0 as [k|].
     + rewrite rename_valid_target. constructor.
     + rewrite (rename_wrong_ref_target i). constructor.
   - (* ERange *) destruct i0 as [k|].
     + rewrite rename_valid_target. constructor.
-    + destruct s; [discriminate|]. cbn [rename_wrong_range]. apply (OT_range i n None None).
-  - constructor. apply Forall2_map_pass with (g := no_ghost_range); assumption.
-  - apply andb_true_iff in Hg as [Hg1 Hg2]. constructor; [auto|].
-    apply Forall2_map_pass with (g := no_ghost_range); assumption.
-  - constructor. apply Forall2_map_pass with (g := no_ghost_range); assumption.
+    + rewrite (rename_wrong_range_target i). constructor.
+  - constructor. apply Forall2_map_pass; assumption.
+  - constructor; [auto|]. apply Forall2_map_pass; assumption.
+  - constructor. apply Forall2_map_pass; assumption.
 Qed.
 
-(* the full-strength statement and its refutation *)
-Definition rename_only_target_statement : Prop :=
-  forall i n e, only_target i n e (rename_node i n e).
-
+(* ---- regression: the witness of the former finding F12 ------------------------------------------- *)
 Definition pA1 : pref := {| p_row := 0; p_col := -3; p_abs_col := false; p_abs_row := false |}.
 Definition pA2 : pref := {| p_row := 1; p_col := -3; p_abs_col := false; p_abs_row := false |}.
 Definition t_ghost : text := [71;104;111;115;116].                 (* "Ghost" *)
@@ -53,21 +48,14 @@ Definition nm_w : names :=
   {| fn_name := fun _ => [70]; fn_lookup := fun _ => None; bool_of_name := fun _ => None; fn_true := 0; fn_false := 1;
      nm_lower := fun t => t; nm_upper := fun t => t; err_tokens := fun k => [TError k] |}.
 
-(* renaming Sheet2 (index 1) to "Renamed": the tree is one the parser returns, the pass changes a
-   node that does not refer to sheet 1, and the new stored text then resolves to the renamed sheet *)
-Theorem rename_ghost_range_refuted :
+(* renaming Sheet2 (index 1) to "Renamed" used to rewrite the ghost range (F12, repaired by 059fa54): now
+   the tree is left alone and its stored text still parses to the range on the nonexistent sheet *)
+Example rename_ghost_range_regression :
   image m_stored nm_w env_w w_ghost = true /\
-  ~ only_target 1 t_renamed w_ghost (rename_node 1 t_renamed w_ghost) /\
+  rename_node 1 t_renamed w_ghost = w_ghost /\
   parse m_stored nm_w (env_renamed 1 t_renamed env_w) (print m_stored nm_w (rename_node 1 t_renamed w_ghost))
-    = Some (ENamedFun None [115;117;109] [ERange (Some t_renamed) (Some 1) pA1 pA2], []).
-Proof.
-  split; [vm_compute; reflexivity|]. split; [|vm_compute; reflexivity].
-  vm_compute. intro H. inversion H as [| | | | | | | | |id name a a' HF| | | | | | |e He]; subst.
-  inversion HF as [|x y l l' Hxy Hl]; subst. inversion Hxy; subst; discriminate.
-Qed.
-
-Theorem rename_only_target_refuted : ~ rename_only_target_statement.
-Proof. intro H. exact (proj1 (proj2 rename_ghost_range_refuted) (H _ _ _)). Qed.
+    = Some (w_ghost, []).
+Proof. vm_compute. repeat split. Qed.
 
 (* ---- move_sheet: references are by name, and a name denotes the same sheet after the move -------- *)
 Lemma lookup_some_in {A} name (l : list (text * A)) a : lookup name l = Some a -> In (name, a) l.
@@ -181,12 +169,12 @@ Proof. destruct a, b; cbn [opt_z_eqb]; try discriminate; try reflexivity. intro 
 Lemma opt_z_eqb_refl a : opt_z_eqb a a = true.
 Proof. destruct a; cbn [opt_z_eqb]; [apply Z.eqb_refl|reflexivity]. Qed.
 
-Lemma forallb_map_pass3 (P Q1 Q2 P' : ast -> bool) (f : ast -> ast) l :
-  Forall (fun x => P x = true -> Q1 x = true -> Q2 x = true -> P' (f x) = true) l ->
-  forallb P l = true -> forallb Q1 l = true -> forallb Q2 l = true -> forallb P' (map f l) = true.
+Lemma forallb_map_pass2 (P Q P' : ast -> bool) (f : ast -> ast) l :
+  Forall (fun x => P x = true -> Q x = true -> P' (f x) = true) l ->
+  forallb P l = true -> forallb Q l = true -> forallb P' (map f l) = true.
 Proof.
-  induction 1 as [|x l Hx _ IH]; cbn [forallb map]; intros H1 H2 H3; [reflexivity|].
-  apply andb_true_iff in H1 as [? ?]. apply andb_true_iff in H2 as [? ?]. apply andb_true_iff in H3 as [? ?].
+  induction 1 as [|x l Hx _ IH]; cbn [forallb map]; intros H1 H2; [reflexivity|].
+  apply andb_true_iff in H1 as [? ?]. apply andb_true_iff in H2 as [? ?].
   apply andb_true_iff. split; auto.
 Qed.
 
@@ -258,12 +246,12 @@ Section Retarget.
   Proof. destruct lam; reflexivity. Qed.
 
   Lemma image_retarget e :
-    forall arg, image_at m nm env arg e = true -> no_ghost_range e = true -> no_ghost_named n e = true ->
+    forall arg, image_at m nm env arg e = true -> no_ghost_named n e = true ->
                 image_at m nm env' arg (retarget e) = true.
   Proof.
-    induction e using ast_rect'; intros arg Hi Hg Hn; unfold retarget;
+    induction e using ast_rect'; intros arg Hi Hn; unfold retarget;
       cbn [rename_node reindex]; fold retarget;
-      cbn [image_at no_ghost_range no_ghost_named] in *;
+      cbn [image_at no_ghost_named] in *;
       try exact Hi.
     - (* ERef *)
       apply andb_true_iff in Hi as [Hi1 Hi2]. rewrite Hi2, andb_true_r. apply opt_z_eqb_true in Hi1.
@@ -275,24 +263,23 @@ Section Retarget.
       apply andb_true_iff in Hi as [Hi1 Hi2]. rewrite Hi2, andb_true_r. apply opt_z_eqb_true in Hi1.
       destruct i0 as [k|]; cbn [reindex_field].
       + rewrite (valid_field_ok s k (eq_sym Hi1)). apply opt_z_eqb_refl.
-      + destruct s as [g|]; [discriminate|]. cbn [rename_wrong_range].
-        rewrite (ghost_field_ok None (eq_sym Hi1) Hn). reflexivity.
-    - apply andb_true_iff in Hi as [? ?]; apply andb_true_iff in Hg as [? ?]; apply andb_true_iff in Hn as [? ?].
+      + unfold rename_wrong_range. rewrite (ghost_field_ok s (eq_sym Hi1) Hn). reflexivity.
+    - apply andb_true_iff in Hi as [? ?]; apply andb_true_iff in Hn as [? ?].
       apply andb_true_iff; split; auto.
-    - apply andb_true_iff in Hi as [? ?]; apply andb_true_iff in Hg as [? ?]; apply andb_true_iff in Hn as [? ?].
+    - apply andb_true_iff in Hi as [? ?]; apply andb_true_iff in Hn as [? ?].
       apply andb_true_iff; split; auto.
-    - apply andb_true_iff in Hi as [? ?]; apply andb_true_iff in Hg as [? ?]; apply andb_true_iff in Hn as [? ?].
+    - apply andb_true_iff in Hi as [? ?]; apply andb_true_iff in Hn as [? ?].
       apply andb_true_iff; split; auto.
-    - apply andb_true_iff in Hi as [? ?]; apply andb_true_iff in Hg as [? ?]; apply andb_true_iff in Hn as [? ?].
+    - apply andb_true_iff in Hi as [? ?]; apply andb_true_iff in Hn as [? ?].
       apply andb_true_iff; split; auto.
-    - apply andb_true_iff in Hi as [? ?]; apply andb_true_iff in Hg as [? ?]; apply andb_true_iff in Hn as [? ?].
+    - apply andb_true_iff in Hi as [? ?]; apply andb_true_iff in Hn as [? ?].
       apply andb_true_iff; split; auto.
     - (* EFun *)
       rewrite map_map. fold retarget.
       apply andb_true_iff in Hi as [Hi Hi3]. apply andb_true_iff in Hi as [Hi1 Hi2].
       change (map (fun x => reindex rho (rename_node i n x)) args) with (map retarget args).
       rewrite Hi1, args_shape_retarget, Hi2. cbn [andb].
-      eapply forallb_map_pass3; [|exact Hi3|exact Hg|exact Hn].
+      eapply forallb_map_pass2; [|exact Hi3|exact Hn].
       eapply Forall_impl; [|exact H]. cbn beta. intros a Ha. apply Ha.
     - (* ELambdaDef *)
       apply andb_true_iff in Hi as [Hi Hi3]. apply andb_true_iff in Hi as [Hi1 Hi2].
@@ -302,17 +289,17 @@ Section Retarget.
       rewrite map_map.
       change (map (fun x => reindex rho (rename_node i n x)) args) with (map retarget args).
       apply andb_true_iff in Hi as [Hi Hi4]. apply andb_true_iff in Hi as [Hi Hi3]. apply andb_true_iff in Hi as [Hi1 Hi2].
-      apply andb_true_iff in Hg as [Hg1 Hg2]. apply andb_true_iff in Hn as [Hn1 Hn2].
+      apply andb_true_iff in Hn as [Hn1 Hn2].
       change (reindex rho (rename_node i n e)) with (retarget e).
-      rewrite is_lambdadef_retarget, Hi1, args_shape_retarget, Hi3, (IHe false Hi2 Hg1 Hn1). cbn [andb].
-      eapply forallb_map_pass3; [|exact Hi4|exact Hg2|exact Hn2].
+      rewrite is_lambdadef_retarget, Hi1, args_shape_retarget, Hi3, (IHe false Hi2 Hn1). cbn [andb].
+      eapply forallb_map_pass2; [|exact Hi4|exact Hn2].
       eapply Forall_impl; [|exact H]. cbn beta. intros a Ha. apply Ha.
     - (* ENamedFun *)
       rewrite map_map.
       change (map (fun x => reindex rho (rename_node i n x)) args) with (map retarget args).
       apply andb_true_iff in Hi as [Hi Hi4]. apply andb_true_iff in Hi as [Hi Hi3]. apply andb_true_iff in Hi as [Hi1 Hi2].
       rewrite Hi1, Hi2, args_shape_retarget, Hi3. cbn [andb].
-      eapply forallb_map_pass3; [|exact Hi4|exact Hg|exact Hn].
+      eapply forallb_map_pass2; [|exact Hi4|exact Hn].
       eapply Forall_impl; [|exact H]. cbn beta. intros a Ha. apply Ha.
     - (* EDefName *)
       rewrite HC. destruct (sheet_index env None) as [ci|] eqn:E; [|discriminate].
@@ -326,7 +313,7 @@ Section Retarget.
       apply andb_true_iff in Hi as [Hi Hi3]. rewrite Hi. cbn [andb]. auto.
     - (* ESpill *)
       apply andb_true_iff in Hi as [Hi Hi3]. rewrite Hi. cbn [andb]. auto.
-    - apply andb_true_iff in Hi as [? ?]; apply andb_true_iff in Hg as [? ?]; apply andb_true_iff in Hn as [? ?].
+    - apply andb_true_iff in Hi as [? ?]; apply andb_true_iff in Hn as [? ?].
       apply andb_true_iff; split; auto.
     - auto.
     - auto.
@@ -526,12 +513,12 @@ Theorem rename_roundtrip nm env (k : nat) (n : text) (e : ast) :
   (* the new name is not the name of another sheet *)
   (forall t x, nth_error (pe_sheets env) t = Some x -> t <> k -> x <> n) ->
   image m_stored nm env e = true -> no_bad false e = true -> lower_stable nm e = true ->
-  no_ghost_range e = true -> no_ghost_named n e = true ->
+  no_ghost_named n e = true ->
   let e' := rename_node (Z.of_nat k) n e in
   image m_stored nm (env_renamed k n env) e' = true /\
   parse m_stored nm (env_renamed k n env) (print m_stored nm e') = Some (e', []).
 Proof.
-  intros Hk Hnd Hctx Hfresh Hi Hb Hl Hg Hn e'.
+  intros Hk Hnd Hctx Hfresh Hi Hb Hl Hn e'.
   assert (He' : e' = retarget (Z.of_nat k) n (fun z => z) e) by (unfold retarget; rewrite reindex_id; reflexivity).
   assert (HA : sheet_index (env_renamed k n env) (Some n) = Some ((fun z : Z => z) (Z.of_nat k))).
   { unfold sheet_index, env_renamed. cbn [pe_sheets]. rewrite idx_replace_self; [f_equal; lia|exact Hk|exact Hfresh]. }
@@ -561,7 +548,7 @@ Proof.
   assert (Hi' : image m_stored nm (env_renamed k n env) e' = true).
   { rewrite He'. unfold image.
     apply (image_retarget m_stored nm env (env_renamed k n env) (Z.of_nat k) n (fun z => z) HA HB HC HD);
-      [intros name ci _; reflexivity|reflexivity|exact Hi|exact Hg|exact Hn]. }
+      [intros name ci _; reflexivity|reflexivity|exact Hi|exact Hn]. }
   split; [exact Hi'|].
   apply roundtrip_parse; [exact Hi'| |].
   - rewrite He'. change (pm_xlsx m_stored) with false. rewrite no_bad_retarget. exact Hb.
@@ -585,10 +572,10 @@ Theorem retarget_roundtrip m nm env env' i n rho e :
                    get_defined_name nm env' name (rho ci) = get_defined_name nm env name ci) ->
   pe_tables env' = pe_tables env ->
   image m nm env e = true -> no_bad (pm_xlsx m) e = true -> lower_stable nm e = true ->
-  no_ghost_range e = true -> no_ghost_named n e = true ->
+  no_ghost_named n e = true ->
   parse m nm env' (print m nm (rename_node i n e)) = Some (retarget i n rho e, []).
 Proof.
-  intros HA HB HC HD Hdn Htb Hi Hb Hl Hg Hn.
+  intros HA HB HC HD Hdn Htb Hi Hb Hl Hn.
   rewrite <- (print_reindex rho m nm (rename_node i n e)). change (reindex rho (rename_node i n e)) with (retarget i n rho e).
   apply roundtrip_parse.
   - unfold image. apply (image_retarget m nm env env' i n rho HA HB HC HD Hdn Htb); assumption.
@@ -659,11 +646,11 @@ Theorem duplicate_roundtrip nm env (src : nat) (copy : text) (e : ast) :
   pe_ctx_sheet env = nth src (pe_sheets env) [] ->
   ~ In copy (pe_sheets env) -> pe_defnames env = [] -> 
   image m_stored nm env e = true -> no_bad false e = true -> lower_stable nm e = true ->
-  no_ghost_range e = true -> no_ghost_named copy e = true ->
+  no_ghost_named copy e = true ->
   parse m_stored nm (env_dup src copy env) (print m_stored nm (dup_node (Z.of_nat src) copy e))
   = Some (reindex (dup_index (Z.of_nat src)) (dup_node (Z.of_nat src) copy e), []).
 Proof.
-  intros Hs Hnd Hctx Hfresh Hdn0 Hi Hb Hl Hg Hn. unfold dup_node.
+  intros Hs Hnd Hctx Hfresh Hdn0 Hi Hb Hl Hn. unfold dup_node.
   apply (retarget_roundtrip m_stored nm env (env_dup src copy env) (Z.of_nat src) copy (dup_index (Z.of_nat src)) e);
     try assumption.
   - unfold sheet_index, env_dup. cbn [pe_sheets]. rewrite idx_insert_self; [|exact Hfresh|lia].
@@ -683,32 +670,30 @@ Proof.
   - reflexivity.
 Qed.
 
-(* ---- the stored formulas are parsed with the USER's locale (finding F65) ---------------------------- *)
-Definition m_user_semicolon : pmode := {| pm_rc := true; pm_xlsx := false; pm_dot := false; pm_row := 1; pm_col := 1 |}.
+(* ---- regression: the witness of the former finding F65 ------------------------------------------- *)
+(* rename_sheet_by_index used to parse the stored (English) formulas with the user's locale: with a ';'
+   locale a two-argument call was a parse error, its text was kept and the reference dangled.  Since
+   9f60d5e the parse is in English whatever the user's locale: the reference gets the new name *)
 Definition p00 : pref := {| p_row := 0; p_col := -1; p_abs_col := false; p_abs_row := false |}.
 Definition t_sum : text := [115;117;109].
 (* sum(Sheet1!R[0]C[-1],Sheet2!R[0]C[-1]) *)
 Definition ts_two_args : list token :=
   [TIdent t_sum; TLParen; TReference (Some t_sheet1) p00; TComma; TReference (Some t_sheet2) p00; TRParen].
 
-Theorem rename_stored_user_locale_refuted :
-  (* parsed as parse_formulas parses it (English) the reference to sheet 1 gets the new name *)
-  rename_stored m_stored nm_w nm_w env_w 1 t_renamed ts_two_args =
+Example rename_stored_regression :
+  rename_stored nm_w env_w 1 t_renamed ts_two_args =
     [TIdent t_sum; TLParen; TReference (Some t_sheet1) p00; TComma; TReference (Some t_renamed) p00; TRParen] /\
-  (* parsed with a locale whose argument separator is ';' (what rename_sheet_by_index does when the user
-     works in such a locale) the text is a parse error and stays as it is *)
-  rename_stored m_user_semicolon nm_w nm_w env_w 1 t_renamed ts_two_args = ts_two_args /\
-  (* ... so after the rename the reference to the renamed sheet dangles *)
-  parse m_stored nm_w (env_renamed 1 t_renamed env_w) ts_two_args =
-    Some (ENamedFun None t_sum [ERef (Some t_sheet1) (Some 0) p00; ERef (Some t_sheet2) None p00], []).
+  parse m_stored nm_w (env_renamed 1 t_renamed env_w) (rename_stored nm_w env_w 1 t_renamed ts_two_args) =
+    Some (ENamedFun None t_sum [ERef (Some t_sheet1) (Some 0) p00; ERef (Some t_renamed) (Some 1) p00], []).
 Proof. vm_compute. repeat split. Qed.
 
-(* non-vacuity of rename_roundtrip: SUM(Sheet2!R[0]C[-1])+R[0]C[-1]-Ghost!R[0]C[-1], renaming Sheet2 *)
+(* non-vacuity of rename_roundtrip: SUM(Sheet2!R[0]C[-1],Ghost!R[0]C[-3]:R[1]C[-3])+R[0]C[-1]-Ghost!R[0]C[-1], renaming Sheet2 *)
 Example rename_roundtrip_nonvacuous :
-  let e := ESum SMinus (ESum SAdd (ENamedFun None t_sum [ERef (Some t_sheet2) (Some 1) p00]) (ERef None (Some 0) p00))
+  let e := ESum SMinus (ESum SAdd (ENamedFun None t_sum [ERef (Some t_sheet2) (Some 1) p00; ERange (Some t_ghost) None pA1 pA2])
+                             (ERef None (Some 0) p00))
                 (ERef (Some t_ghost) None p00) in
   image m_stored nm_w env_w e = true /\ no_bad false e = true /\ lower_stable nm_w e = true /\
-  no_ghost_range e = true /\ no_ghost_named t_renamed e = true /\
+  no_ghost_named t_renamed e = true /\
   rename_node 1 t_renamed e <> e /\
   parse m_stored nm_w (env_renamed 1 t_renamed env_w) (print m_stored nm_w (rename_node 1 t_renamed e))
     = Some (rename_node 1 t_renamed e, []).
